@@ -6,21 +6,10 @@
 -/
 import Nervus.Proofs.PublishRun
 import Nervus.Proofs.IdEq
+import Nervus.Proofs.EngineCompactE
 namespace Nervus.Storage
 open Nervus.GraphSpec (TxOp Op)
 open Nervus.StorageTriggers (storeHasN storeHasE)
-
-theorem compactSafe_unpack (s : Engine) (hs : compactSafe s = true) :
-    NoTombs s.runs ∧ (∀ r ∈ s.runs, r.nDel = []) ∧ (∀ r ∈ s.runs, r.eDel = []) ∧
-    (s.propsRoot = 0 → s.store = []) := by
-  simp only [compactSafe, Bool.and_eq_true, List.all_eq_true, List.isEmpty_iff, Bool.or_eq_true,
-    bne_iff_ne, ne_eq] at hs
-  obtain ⟨hruns, hroot⟩ := hs
-  refine ⟨fun r hr => ⟨(hruns r hr).1.1.1, (hruns r hr).1.1.2⟩, fun r hr => (hruns r hr).1.2,
-    fun r hr => (hruns r hr).2, ?_⟩
-  intro h0; rcases hroot with h | h
-  · exact absurd h0 h
-  · exact h
 
 /-! ### properties after one more run -/
 
@@ -361,21 +350,21 @@ theorem tx_eqv (c : Cfg) {s u : Engine} (hE : Eqv c s u) (hu : u.propsRoot = 0) 
 
 /-! ### compaction on one of them -/
 
-theorem compact_eqv (c : Cfg) (hg : c.csrGuard = true) {s u : Engine} (hE : Eqv c s u)
-    (hs : compactSafe s = true) : Eqv c (s.compact c) u := by
-  obtain ⟨hnt, hnd, hed, hroot⟩ := compactSafe_unpack s hs
+theorem compact_eqv (c : Cfg) (hg : c.csrGuard = true) (hown : c.compactOwnLast = true) {s u : Engine}
+    (hE : Eqv c s u) (hs : compactSafe c s = true) : Eqv c (s.compact c) u := by
+  obtain ⟨hnt, hnd, hed, hroot, hclear⟩ := compactSafe_unpack c s hs
   have hid : (s.compact c).idmap = s.idmap ∧ (s.compact c).interner = s.interner ∧ (s.compact c).vecs = s.vecs := by
     unfold Engine.compact; split <;> exact ⟨rfl, rfl, rfl⟩
   refine ⟨(IdEq.of_eq hid.1).trans hE.idmap, hid.2.1.trans hE.interner, hid.2.2.trans hE.vecs, ?_, ?_, ?_, ?_, ?_⟩
   · intro n
-    rw [← hE.tomb n, isTombNode_noTombs s.runs hnt n]
+    rw [← hE.tomb n, isTombNode_noNodeTombs s.runs hnt n]
     cases he : s.runs.isEmpty with
     | true =>
       have : s.compact c = s := by unfold Engine.compact; rw [he]; rfl
-      rw [this]; exact isTombNode_noTombs s.runs hnt n
+      rw [this]; exact isTombNode_noNodeTombs s.runs hnt n
     | false => rw [(compact_fields c s he).1]; rfl
-  · intro n rel; exact (compact_neighbors c s hnt n rel).trans (hE.out n rel)
-  · intro n rel; exact (compact_incoming c s hnt (Or.inl hg) n rel).trans (hE.inc n rel)
+  · intro n rel; exact (compact_neighbors_E c s hnt hown (segsClear_out hclear) n rel).trans (hE.out n rel)
+  · intro n rel; exact (compact_incoming_E c s hnt hown hg (segsClear_in hclear) n rel).trans (hE.inc n rel)
   · intro n k; rw [compact_nodeProp c s hnd hroot]; exact hE.nprop n k
   · intro e k; rw [compact_edgeProp c s hed hroot]; exact hE.eprop e k
 
@@ -386,7 +375,7 @@ theorem compact_eqv (c : Cfg) (hg : c.csrGuard = true) {s u : Engine} (hE : Eqv 
 def compactHistSafe (c : Cfg) : Engine → List Op → Bool
   | _, [] => true
   | s, .tx ops b :: h => removalsClear (runTx c s ops b) && compactHistSafe c (runTx c s ops b) h
-  | s, .compact :: h => compactSafe s && compactHistSafe c (s.compact c) h
+  | s, .compact :: h => compactSafe c s && compactHistSafe c (s.compact c) h
   | _, _ :: _ => false
 
 def notCompact : Op → Bool
@@ -396,7 +385,8 @@ def notCompact : Op → Bool
 /-- the history with every compaction taken out -/
 def dropCompactions (h : List Op) : List Op := h.filter notCompact
 
-theorem hist_eqv (c : Cfg) (hg : c.csrGuard = true) : ∀ (h : List Op) (s u : Engine), Eqv c s u → u.propsRoot = 0 →
+theorem hist_eqv (c : Cfg) (hg : c.csrGuard = true) (hown : c.compactOwnLast = true) :
+    ∀ (h : List Op) (s u : Engine), Eqv c s u → u.propsRoot = 0 →
     compactHistSafe c s h = true →
     ∃ s' u', h.foldlM (runOp c) s = .ok s' ∧ (dropCompactions h).foldlM (runOp c) u = .ok u' ∧ Eqv c s' u' := by
   intro h
@@ -415,7 +405,7 @@ theorem hist_eqv (c : Cfg) (hg : c.csrGuard = true) : ∀ (h : List Op) (s u : E
         rw [List.filter_cons_of_pos (by rfl), List.foldlM_cons]; exact h2
     | compact =>
       simp only [compactHistSafe, Bool.and_eq_true] at hs
-      obtain ⟨s', u', h1, h2, h3⟩ := ih _ _ (compact_eqv c hg hE hs.1) hu hs.2
+      obtain ⟨s', u', h1, h2, h3⟩ := ih _ _ (compact_eqv c hg hown hE hs.1) hu hs.2
       refine ⟨s', u', ?_, ?_, h3⟩
       · rw [List.foldlM_cons]; exact h1
       · show ((Op.compact :: h).filter notCompact).foldlM (runOp c) u = _
